@@ -495,3 +495,14 @@ func (e *Engine) invFor(t types.Type) *StructInv {
 }
 
 var _ = ssax.ConstInt
+
+// ValStr renders an abstract value for diagnostics.
+func (e *Engine) ValStr(v AVal) string {
+	switch x := v.(type) {
+	case IntV:
+		return e.LinStr(x.L)
+	case nil:
+		return "<none>"
+	}
+	return fmt.Sprintf("%T", v)
+}
